@@ -305,6 +305,7 @@ type xreadCase struct {
 	Reads   int `json:"reads"`   // full reads per reader at most
 	DurMs   int `json:"dur_ms"`  // … and readers stop after this many milliseconds (0 = no time limit)
 	Writers int `json:"writers"` // concurrent writers to OTHER partitions
+	WBatch  int `json:"wbatch"`  // events per writer batch (0 = 50): big request bodies come from the same pooled size classes as big pages
 	Procs   int `json:"procs"`   // GOMAXPROCS while the readers run (0 = unchanged): sync.Pool is per P, so a pooled buffer released too early
 	// is only re-used by another handler when there are more busy connections than Ps
 	Page    int `json:"page"`
@@ -395,7 +396,11 @@ func runXRead(c xreadCase, sec *vh.Section) {
 					return
 				default:
 				}
-				evs := make([]*api.LogEvent, 50)
+				wb := c.WBatch
+				if wb <= 0 {
+					wb = 50
+				}
+				evs := make([]*api.LogEvent, wb)
 				for k := range evs {
 					evs[k] = &api.LogEvent{Timestamp: int64(i), Message: fmt.Sprintf("other writer %d batch %d %s", w, i, strings.Repeat("W", 80))}
 				}
@@ -461,7 +466,7 @@ func runXRead(c xreadCase, sec *vh.Section) {
 
 func sectionXRead(rng *vh.Rng) {
 	sec := res.Section("xread", "stress",
-		"concurrent readers over a quiescent store: 4 partitions x 1500 self-describing events (~110-byte messages, write-level + own fields; a full result is ~250 KB, far above the server's 4 KB initial result buffer) written through RPC, flush awaited; one sequential read per partition, then three configurations — 24 readers over 16 partitions with ~2 MB pages under GOMAXPROCS 4 and 2 writers to other partitions (more busy connections than Ps: a pooled buffer released too early is then re-used by another handler), 8 readers with ~250 KB pages, 12 readers with 300-event pages under GOMAXPROCS 2 — each reader on its own RPC connection re-reads its partition completely over and over for 3 s / 1.5 s / 1.5 s (thorough: 3 rounds of 4 s each, two of them with 2 writers to other partitions; page sizes 10000 and 300): every read must be exactly the partition's events (count, order, timestamp, message, tag line, fields). No writer touches the partitions being read, so the tail race #34 cannot occur. non-trivial = every run")
+		"concurrent readers over a quiescent store: 4 partitions x 1500 self-describing events (~110-byte messages, write-level + own fields; a full result is ~250 KB, far above the server's 4 KB initial result buffer) written through RPC, flush awaited; one sequential read per partition, then three configurations — 24 readers over 16 partitions with ~2 MB pages under GOMAXPROCS 4 and 4 writers sending 3000-event batches to other partitions (more busy connections than Ps: a pooled buffer released too early is then re-used by another handler), 8 readers with ~250 KB pages, 12 readers with 300-event pages under GOMAXPROCS 2 — each reader on its own RPC connection re-reads its partition completely over and over for 4 s / 1.5 s / 1.5 s (thorough: 3 rounds of 4 s each, two of them with 2 writers to other partitions; page sizes 10000 and 300): every read must be exactly the partition's events (count, order, timestamp, message, tag line, fields). No writer touches the partitions being read, so the tail race #34 cannot occur. non-trivial = every run")
 	dur, rounds := 1500, 1
 	if args.Thorough {
 		dur, rounds = 4000, 3
@@ -473,7 +478,7 @@ func sectionXRead(rng *vh.Rng) {
 		}
 		for _, c := range []xreadCase{
 			// more busy connections than processors, pages of ~2 MB (the socket write blocks), writers to other partitions
-			{Parts: 16, Events: 8000, MsgLen: 200, Readers: 24, Reads: 1 << 20, DurMs: 2 * dur, Page: 10000, Writers: 2, Procs: 4},
+			{Parts: 16, Events: 8000, MsgLen: 200, Readers: 24, Reads: 1 << 20, DurMs: 4000, Page: 10000, Writers: 4, WBatch: 3000, Procs: 4},
 			{Parts: 4, Events: 1500, MsgLen: 80, Readers: 8, Reads: 1 << 20, DurMs: dur, Page: 10000, Writers: w},
 			{Parts: 3, Events: 2000, MsgLen: 60, Readers: 12, Reads: 1 << 20, DurMs: dur, Page: 300, Writers: w, Procs: 2},
 		} {
